@@ -66,6 +66,9 @@ type DefaultFanController struct {
 	originalPwmValue int
 	// the last pwm value that was set to the fan, **before** applying the pwmMap to it
 	lastSetPwm *int
+	// the last value computed by the control loop (in the 0..255 domain of the curve),
+	// **before** mapping it to the [minPwm, maxPwm] range of the fan
+	lastLoopValue *int
 	// a list of all pre-pwmMap pwm values where setPwm(x) != setPwm(y) for the controlled fan
 	pwmValuesWithDistinctTarget []int
 	// a map of x -> getPwm() where x is setPwm(x) for the controlled fan
@@ -439,8 +442,15 @@ func (f *DefaultFanController) calculateTargetPwm() (int, error) {
 		ui.Fatal("Unable to calculate optimal PWM value for %s: %v", fan.GetId(), err)
 	}
 
+	// the control loop works in the domain of the curve (0..255), so it has to be fed with
+	// its own previous output, not with the value that was mapped to the pwm range of the fan
+	current := lastSetPwm
+	if f.lastLoopValue != nil {
+		current = *f.lastLoopValue
+	}
+
 	// the target pwm, approaching the actual target smoothly
-	target = f.controlLoop.Cycle(target, lastSetPwm)
+	target = f.controlLoop.Cycle(target, current)
 
 	// ensure target value is within bounds of possible values
 	if target > fans.MaxPwmValue {
@@ -450,6 +460,9 @@ func (f *DefaultFanController) calculateTargetPwm() (int, error) {
 		ui.Warning("Tried to set out-of-bounds PWM value %d on fan %s", target, fan.GetId())
 		target = fans.MinPwmValue
 	}
+
+	loopValue := target
+	f.lastLoopValue = &loopValue
 
 	// map the target value to the possible range of this fan
 	maxPwm := fan.GetMaxPwm()
